@@ -876,6 +876,20 @@ func main() {
 		}
 		progs = append(progs, pc{p, inputsFor(rng, p)})
 	}
+	// directed control-flow shapes (their own stream: the programs above stay the same), each followed
+	// by random statements
+	rngS := hx.RNG(seed, "c12-shapes")
+	for i := 0; i < nProg/2; i++ {
+		o := gogen.Opts{Shape: 1 + i%6, MaxStmts: 3, NoFuncs: i%2 == 0}
+		switch (i / 6) % 3 {
+		case 1:
+			o.NoMemVars = true
+		case 2:
+			o.NoRegVars = true
+		}
+		p := gogen.Generate(rngS, o)
+		progs = append(progs, pc{p, inputsFor(rngS, p)})
+	}
 	// directed: a program whose emitted code has exactly 2^k lines and jumps to its end (the recorded
 	// finding: the target needs k+1 bits)
 	progs = append(progs, pc{&gogen.Prog{Rsize: 8, Outputs: []int{11}, Vars: []string{"reg_0", "reg_1"},
